@@ -17,6 +17,7 @@
 -/
 import AITB.Model.Num
 import AITB.Gen.Constants
+import AITB.Gen.C04
 
 namespace AITB.Plan
 open AITB
@@ -99,7 +100,7 @@ def project (m : Pomdp) (w : VList) (a o : Nat) : VList :=
   if possible m a o then
     (List.range w.length).map (fun i => ⟨projVec m a o (entryAt w i), a, [i]⟩)
   else
-    [⟨immR m a, a, [0]⟩]
+    [⟨immR m a, a, [Gen.C04.projImpossibleLink]⟩]
 
 /-! ## cross sums -/
 
@@ -110,7 +111,7 @@ def addV : List Rat → List Rat → List Rat
 /-- `IncrementalPruning::crossSum(l1, l2, a, order)` -/
 def crossSum (l1 l2 : VList) (a : Nat) (order : Bool) : VList :=
   l1.flatMap (fun v1 => l2.map (fun v2 =>
-    ⟨addV v1.values v2.values, a, if order then v1.obs ++ v2.obs else v2.obs ++ v1.obs⟩))
+    ⟨addV v1.values v2.values, a, if order == Gen.C04.crossSumL1First then v1.obs ++ v2.obs else v2.obs ++ v1.obs⟩))
 
 /-! ## the one-step derivation of an entry from its action and links (the property's "genuine plan") -/
 
@@ -201,16 +202,16 @@ def sampleActionB (m : Pomdp) (vf : VF) (b : Nat → Rat) (h : Nat) : Nat × Nat
   let id := (bestAtPoint m.S b (vlist vf h)).1
   ((entry vf h id).action, id)
 
-/-- `Policy::sampleAction(id, o, horizon)` → (action, newId): `newId = policy[horizon+1][id].observations[o]`,
-    `action = policy[horizon][newId].action` -/
+/-- `Policy::sampleAction(id, o, horizon)` → (action, newId): `newId = policy[horizon+K][id].observations[o]`
+    (K = 1, read from the source), `action = policy[horizon][newId].action` -/
 def sampleActionIdO (vf : VF) (id o h : Nat) : Nat × Nat :=
-  let newId := link (entry vf (h+1) id) o
+  let newId := link (entry vf (h + Gen.C04.policyLinkLevel) id) o
   ((entry vf h newId).action, newId)
 
 /-- range-checked version used to decide whether the C++ call is defined -/
 def sampleActionIdO? (vf : VF) (id o h : Nat) : Option (Nat × Nat) :=
-  if id < (vlist vf (h+1)).length ∧ o < (entry vf (h+1) id).obs.length then
-    let newId := link (entry vf (h+1) id) o
+  if id < (vlist vf (h + Gen.C04.policyLinkLevel)).length ∧ o < (entry vf (h + Gen.C04.policyLinkLevel) id).obs.length then
+    let newId := link (entry vf (h + Gen.C04.policyLinkLevel) id) o
     if newId < (vlist vf h).length then some ((entry vf h newId).action, newId) else none
   else none
 
